@@ -115,6 +115,13 @@ def to_spec(v):
 
 
 def gen_item(r, kind, fresh, invalid_rate, lookup=False, in_set=False):
+    sp = _gen_item(r, kind, fresh, invalid_rate, lookup, in_set)
+    if sp == {"t": "bad"} and not in_set and r.random() < 0.4:
+        sp = {"t": "bad", "how": "undef"}
+    return sp
+
+
+def _gen_item(r, kind, fresh, invalid_rate, lookup=False, in_set=False):
     """``in_set``: the value will travel inside a raw set - no strings there
     (their hash, hence iteration order and the event log, would depend on
     PYTHONHASHSEED)."""
